@@ -287,9 +287,11 @@ inductive Family where
   | kql | kml | metaC
   deriving DecidableEq, Repr
 
-/-- ASCII lower-casing (what `tag_no_case` amounts to against an ASCII keyword without `K`). -/
-def lowerAscii (c : Char) : Char :=
-  if 'A'.toNat ≤ c.toNat ∧ c.toNat ≤ 'Z'.toNat then Char.ofNat (c.toNat + 32) else c
+/-- Code point after ASCII lower-casing. `tag_no_case` compares `to_lowercase()` of both sides; against
+an ASCII keyword without `K` that is ASCII case folding (U+212A KELVIN SIGN is the only non-ASCII
+character whose lowercase is an ASCII letter). -/
+def foldNat (c : Char) : Nat :=
+  if 0x41 ≤ c.toNat ∧ c.toNat ≤ 0x5A then c.toNat + 32 else c.toNat
 
 def isAsciiAlnum (c : Char) : Bool :=
   let n := c.toNat
@@ -304,7 +306,7 @@ def isAlnum (uni : Char → Bool) (c : Char) : Bool :=
 def matchKeyword : List Char → List Char → Option (List Char)
   | [], s => some s
   | _ :: _, [] => none
-  | k :: ks, c :: cs => if lowerAscii k == lowerAscii c then matchKeyword ks cs else none
+  | k :: ks, c :: cs => if foldNat k == foldNat c then matchKeyword ks cs else none
 
 /-- `word_boundary`: the next character, if any, does not glue to a keyword. -/
 def wordBoundary (uni : Char → Bool) : List Char → Bool
